@@ -1491,9 +1491,13 @@ class IndexHierarchy(IndexBase):
         flat = self.flat().values
         mask = sel == length
         if not mask.any():
-            return flat[sel] #type: ignore [no-any-return]
+            post = flat[sel]
+            if post.__class__ is np.ndarray: # an element if a single value was given
+                post.flags.writeable = False
+            return post #type: ignore [no-any-return]
 
         post = np.empty(len(sel), dtype=object)
+        sel = sel.copy() # positions from iloc_searchsorted are immutable
         sel[mask] = 0 # set out of range values to zero
         post[:] = flat[sel]
         post[mask] = fill_value
